@@ -17,6 +17,46 @@ pub use ::std::*;
 pub mod thread {
     pub use shuttle::thread::*;
 
+    /// `std::thread::Builder` over the seam (adds `spawn_scoped`, which shuttle's builder lacks;
+    /// name and stack size are accepted and ignored for scoped tasks).
+    #[derive(Debug, Default)]
+    pub struct Builder {
+        name: Option<String>,
+        stack_size: Option<usize>,
+    }
+
+    impl Builder {
+        pub fn new() -> Self {
+            Builder { name: None, stack_size: None }
+        }
+        pub fn name(mut self, name: String) -> Self {
+            self.name = Some( name );
+            self
+        }
+        pub fn stack_size(mut self, size: usize) -> Self {
+            self.stack_size = Some( size );
+            self
+        }
+        pub fn spawn<F, T>(self, f: F) -> ::std::io::Result<JoinHandle<T>>
+        where
+            F: FnOnce() -> T + Send + 'static,
+            T: Send + 'static,
+        {
+            let mut b = shuttle::thread::Builder::new();
+            if let Some( n ) = self.name { b = b.name( n ); }
+            if let Some( s ) = self.stack_size { b = b.stack_size( s ); }
+            b.spawn( f )
+        }
+        pub fn spawn_scoped<'scope, 'env, F, T>(self, scope: &'scope Scope<'scope, 'env>, f: F)
+            -> ::std::io::Result<ScopedJoinHandle<'scope, T>>
+        where
+            F: FnOnce() -> T + Send + 'scope,
+            T: Send + 'scope,
+        {
+            Ok( scope.spawn( f ) )
+        }
+    }
+
     /// `std::thread::available_parallelism` over the seam: the simulated CPU count if one is
     /// installed (see `num_cpus::set_override`), else the real value.
     pub fn available_parallelism() -> ::std::io::Result<::std::num::NonZeroUsize> {
